@@ -107,3 +107,16 @@ func (w *verifBBWorld) drain() []base.Voteproof {
 		}
 	}
 }
+
+// verifBBPriv: harness private key (ideal scheme: the signature names the key; Verify is not
+// what the code under test does in these checks).
+type verifBBPriv struct{ s string }
+
+func (p verifBBPriv) String() string              { return "priv-" + p.s }
+func (p verifBBPriv) Bytes() []byte               { return []byte("priv-" + p.s) }
+func (p verifBBPriv) IsValid([]byte) error        { return nil }
+func (p verifBBPriv) Equal(o base.PKKey) bool     { return o != nil && o.String() == p.String() }
+func (p verifBBPriv) Publickey() base.Publickey   { return verifBBPub{s: p.s} }
+func (p verifBBPriv) Sign(b []byte) (base.Signature, error) {
+	return base.Signature(util.ConcatBytesSlice([]byte("signed-by-"+p.s+":"), valuehash.NewSHA256(b).Bytes())), nil
+}
